@@ -257,6 +257,18 @@ def _check_world_case(ctx: Ctx, name: str, case: dict, res: dict, model: List[st
     return False
 
 
+_LOAD_REPORTED: Dict[str, int] = {}
+
+
+def _load_report(ctx: Ctx, sig: dict, what: str, replay_rec: dict):
+    """at most two reports per signature (an enumerated family makes every member fail at once)"""
+    key = json.dumps(sig, sort_keys=True)
+    _LOAD_REPORTED[key] = _LOAD_REPORTED.get(key, 0) + 1
+    ctx.count("load:violations:" + sig.get("where", sig.get("kind", "?")))
+    if _LOAD_REPORTED[key] <= 2:
+        ctx.violation(sig, what, replay_rec)
+
+
 def _check_load_case(ctx: Ctx, name: str, case: dict, res: dict, model: List[str], guards: Dict[str, bool]) -> bool:
     """R-load: a scenario built through PrimaiteGame.from_config vs the loader specification and the lifecycle / registry model"""
     ctx.cov["traces_validated_against_impl"] += 1
@@ -294,8 +306,8 @@ def _check_load_case(ctx: Ctx, name: str, case: dict, res: dict, model: List[str
             continue
         seen.add(key)
         ctx.count("oracle:" + kind)
-        ctx.violation(sig, f"{kind} (scenario loaded through PrimaiteGame.from_config) after op {i} of {name}: {detail}",
-                      {"load_case": dict(case, ops=[]) if i < 0 else case, "from": name, "op_index": i, "oracle": kind})
+        _load_report(ctx, sig, f"{kind} (scenario loaded through PrimaiteGame.from_config) after op {i} of {name}: {detail}",
+                     {"load_case": dict(case, ops=[]) if i < 0 else case, "from": name, "op_index": i, "oracle": kind})
     if j < 0:
         return True
     n_init = next((k for k, l in enumerate(res["lines"]) if l == "dump"), 0)
@@ -327,7 +339,7 @@ def _check_load_case(ctx: Ctx, name: str, case: dict, res: dict, model: List[str
         what = (f"software of a node loaded through PrimaiteGame.from_config (defaults={lrig.show_dict(d)}) differs from the proved model "
                 f"instantiated with the CONFIGURED durations at line {j2} ({prev!r} / {line!r}): impl={res2['impl'][j2] if j2 < len(res2['impl']) else None!r} "
                 f"model={model2[j2] if j2 < len(model2) else None!r}")
-    ctx.violation(sig, what, {"load_case": small, "lines": res2["lines"], "impl": res2["impl"], "model": model2, "first_diff": j2, "from": name})
+    _load_report(ctx, sig, what, {"load_case": small, "lines": res2["lines"], "impl": res2["impl"], "model": model2, "first_diff": j2, "from": name})
     return False
 
 
@@ -487,6 +499,7 @@ def run(ctx: Ctx):
     # -- R-load: scenarios built THROUGH PrimaiteGame.from_config (defaults section, per-service options, run-time installs) vs the
     #    loader specification (`loadall`) and the lifecycle / registry model instantiated with the CONFIGURED durations
     load_cases = []
+    _LOAD_REPORTED.clear()
     for f in sorted((VERIF / "corpus" / "C13" / "load").glob("*.json")):
         load_cases.append(("corpus:load/" + f.name, json.loads(f.read_text())["case"]))
     for k, c in enumerate(lrig.enum_load_cases()):
